@@ -2,15 +2,18 @@
 
 Streams
   e2e   : generated module with `@evaluated` functions and one call per line, checked by the real pyanalyze:
-          the call node's inferred value (decoded structurally) + the show_error messages reported on that line
+          the call node's inferred value (decoded structurally), the diagnostics reported on the line, and — through an
+          in-process observer wrapped around `Evaluator.evaluate` / `Signature.check_call_with_bound_args` (nothing in
+          /repo is edited) — every UserRaisedError the evaluator raised and the variables / positions it was given
   model : lake env lean --run Driver/C20.lean: `evalCall` (bind via pyaCall, then the evaluator model), the Lean
-          reference interpreter `refCall`, the positions, the D classes
+          reference interpreter `refCall`, the positions and variables, the D classes
   ref   : the Python reference interpreter written from docs/type_evaluation.md (argument kinds from the doc's table,
           is_of_type from a CPython isinstance/issubclass based assignability, union arguments split into members)
-Correspondence: e2e == model (type term, messages in order); Lean ref == Python ref (stream spec); positions (model) ==
-doc kinds (python) through the kind mapping (stream kinds).
-Property search on the implementation: e2e result vs Python reference (members of the result type as a set, set of fired
-messages), for calls with at most one union-typed variable; metamorphic: e2e(union) vs union of e2e(member calls).
+Correspondence: e2e == model (type term, fired messages in order: stream e2e; positions and variable types: stream
+bind); Lean ref == Python ref (stream spec).
+Property search on the implementation: positions vs the doc's kind table (stream kinds); reported diagnostics vs fired
+show_errors; result type / fired sites vs the Python reference (members of the result type as a set), for calls with at
+most one union-typed variable; metamorphic: e(union) vs the union of e(member) over separately generated member calls.
 """
 import itertools, json, os, sys as _sys
 
@@ -55,7 +58,10 @@ RULE = (
     "*args / **kwargs; calls passing each parameter positionally, by keyword, not at all, through *xs (list[T]) or **d "
     "(dict[str, T]); argument types: literals, classes, unions of those, Any. Exhaustive part: every body "
     "`if <c>: <s> else: <s>; <s>` with <c> a primitive condition or its negation over one parameter and <s> in "
-    "{return, show_error, pass}, against every argument type of the universe; then seeded random larger bodies. "
+    "{return, show_error, pass}, against every argument type of the universe; every nested / sequential pair of conditions "
+    "from a set of 10 over x; every `and`/`or` of two (possibly negated) tests from a set of 8 as the condition of an if "
+    "whose branches test x again; (each exhaustive family is sampled down by the seed in the quick tier); then seeded random "
+    "larger bodies with up to 3 parameters. "
     "Non-trivial = the body has a condition on an argument whose type is a union or Any, or an argument-kind test on a "
     "parameter not passed as a plain argument; distinct by (def, call) text"
 )
@@ -672,6 +678,28 @@ def two_level_cases():
     return fns, calls
 
 
+def boolop_cases():
+    """Every and/or of two tests from a small set over x (plain or negated), as the condition of an if whose
+    branches look at x again (exercises visit_BoolOp's narrowed / remaining bookkeeping)."""
+    prims = [("oftype", "x", T(INT), "default"), ("oftype", "x", T(STR), "default"), ("cmp", "x", "==", ("int", 1)),
+             ("cmp", "x", "==", ("int", 2)), ("oftype", "x", T(CCOLOR), "False"), ("cmp", "x", "is", ("none",)),
+             ("oftype", "x", UNI(K(("int", 1)), K(("int", 2))), "default"), ("kind", "is_positional", "x")]
+    ops = prims + [("not", c) for c in prims]
+    fns = []
+    for op in ("and", "or"):
+        for c1 in ops:
+            for c2 in ops:
+                cond = (op, [c1, c2])
+                fns.append({"params": [("x", "pk", None)], "ret": T(G.COMPLEX), "body": [
+                    ("if", cond,
+                     [("if", ("cmp", "x", "==", ("int", 1)), [("ret", T(INT))], [("if", ("oftype", "x", T(STR), "default"), [("ret", T(STR))], [("ret", T(BYTES))])])],
+                     [("if", ("cmp", "x", "==", ("int", 1)), [("err", "E1"), ("ret", T(FLOAT))], [("if", ("oftype", "x", T(STR), "default"), [("ret", T(BOOL))], [("ret", T(CA))])])])]})
+    calls = [[("p", t)] for t in [UNI(K(("int", 1)), K(("int", 2)), K(("str", "a"))), UNI(K(("int", 1)), T(STR)), UNI(T(INT), T(STR)),
+                                  UNI(T(CCOLOR), K(("int", 0))), UNI(T(INT), K(("none",))), UNI(K(("int", 1)), K(("int", 2))),
+                                  UNI(T(BOOL), T(STR), K(("none",))), K(("int", 1)), ANY]]
+    return fns, calls
+
+
 def gen_cases(ctx):
     rng = ctx.rng
     cases = []   # (fn, args)
@@ -679,10 +707,13 @@ def gen_cases(ctx):
     ex = [(f, c) for f in fns for c in calls]
     fns2, calls2 = two_level_cases()
     ex2 = [(f, c) for f in fns2 for c in calls2]
+    fns3, calls3 = boolop_cases()
+    ex3 = [(f, c) for f in fns3 for c in calls3]
     ctx.extra["exhaustive_part"] = (
-        "%d one-condition bodies x %d calls and %d two-condition bodies x %d calls" % (len(fns), len(calls), len(fns2), len(calls2)))
-    cap = ctx.n(2200, 100000)
-    for part in (ex, ex2):
+        "%d one-condition bodies x %d calls, %d two-condition bodies x %d calls, %d and/or bodies x %d calls" % (
+            len(fns), len(calls), len(fns2), len(calls2), len(fns3), len(calls3)))
+    cap = ctx.n(1600, 100000)
+    for part in (ex, ex2, ex3):
         if len(part) > cap:
             rng.shuffle(part)
             part = part[:cap]
@@ -1114,7 +1145,7 @@ def evaluate(ctx, cases, with_model=True):
                         cls=pick(dcls, UNION_CLASSES), conforms=conforms, stream="metamorphic")
 
 
-UNION_CLASSES = ["ellipsisDefault", "fallThrough", "overlapNarrow", "retyped"]
+UNION_CLASSES = ["ellipsisDefault", "boolOpDrop", "fallThrough", "overlapNarrow", "retyped"]
 NONUNION_CLASSES = ["ellipsisDefault", "retyped"]
 
 
